@@ -1704,7 +1704,7 @@ class UTPM(Ring, RawAlgorithmsMixIn):
             # try to infer the dtype from x
             dtype= x.dtype
 
-            if dtype==int:
+            if numpy.issubdtype(dtype, numpy.integer):
                 dtype=float
 
 
@@ -1758,7 +1758,7 @@ class UTPM(Ring, RawAlgorithmsMixIn):
             # try to infer the dtype from x
             dtype= x.dtype
 
-            if dtype==int:
+            if numpy.issubdtype(dtype, numpy.integer):
                 dtype=float
 
 
@@ -1833,7 +1833,10 @@ class UTPM(Ring, RawAlgorithmsMixIn):
         N = x.size
         M = (N*(N+1))//2
         L = (N*(N-1))//2
-        S = numpy.zeros((N,M), dtype=x.dtype)
+        dtype = x.dtype
+        if numpy.issubdtype(dtype, numpy.integer):
+            dtype = float
+        S = numpy.zeros((N,M), dtype=dtype)
 
         s = 0
         i = 0
@@ -1844,7 +1847,7 @@ class UTPM(Ring, RawAlgorithmsMixIn):
             i+=1
         S = S[::-1].T
 
-        data = numpy.zeros(numpy.hstack([3,S.shape]), dtype=x.dtype)
+        data = numpy.zeros(numpy.hstack([3,S.shape]), dtype=dtype)
         data[0] = x
         data[1] = S
         return cls(data)
@@ -1895,7 +1898,7 @@ class UTPM(Ring, RawAlgorithmsMixIn):
             # try to infer the dtype from x
             dtype= x.dtype
 
-            if dtype==int:
+            if numpy.issubdtype(dtype, numpy.integer):
                 dtype=float
 
         N = numpy.size(x)
